@@ -167,6 +167,11 @@ func (v *Verifier) prelude(theory string) string {
 (declare-fun trgs (String) Bool)
 (assert (forall ((x String)) (! (trgs x) :pattern ((trgs x)))))
 `)
+	for _, f := range sortedKeys(v.spec.SmtFuns) {
+		sf := v.spec.SmtFuns[f]
+		fmt.Fprintf(&sb, "(declare-fun %s (%s) %s)\n", sf.Name, strings.Join(sf.Args, " "), sf.Ret)
+	}
+	_, hasStorage := v.spec.SmtFuns["isStorage"]
 	var names []string
 	for _, g := range v.errGlobals {
 		names = append(names, sym("err."+g))
@@ -176,6 +181,13 @@ func (v *Verifier) prelude(theory string) string {
 	}
 	for _, n := range names {
 		fmt.Fprintf(&sb, "(declare-const %s Int)\n(assert (> %s 0))\n(assert (forall ((t Int)) (! (= (errIs %s t) (= t %s)) :pattern ((errIs %s t)))))\n", n, n, n, n, n)
+		if hasStorage {
+			// the error values of the package are not storage faults
+			fmt.Fprintf(&sb, "(assert (not (isStorage %s)))\n", n)
+		}
+	}
+	if hasStorage {
+		sb.WriteString("(assert (not (isStorage 0)))\n")
 	}
 	if len(names) > 1 {
 		fmt.Fprintf(&sb, "(assert (distinct %s))\n", strings.Join(names, " "))
@@ -229,10 +241,6 @@ func (v *Verifier) prelude(theory string) string {
 		sb.WriteString(preludePathsConcrete)
 	} else {
 		sb.WriteString(preludePathsAbstract)
-	}
-	for _, f := range sortedKeys(v.spec.SmtFuns) {
-		sf := v.spec.SmtFuns[f]
-		fmt.Fprintf(&sb, "(declare-fun %s (%s) %s)\n", sf.Name, strings.Join(sf.Args, " "), sf.Ret)
 	}
 	for _, raw := range v.spec.RawPrelude {
 		sb.WriteString(raw + "\n")
